@@ -1085,7 +1085,9 @@ helperHandleRead(const Comm::ConnectionPointer &conn, char *, size_t len, Comm::
                         ++msg;
                 } // else not enough data to compute request number
             }
-            if (!(srv->replyXaction = srv->popRequest(i))) {
+            // Do not look the request up while the channel-ID may continue in
+            // the next read: the partial ID may be another request's ID.
+            if (!needsMore && !(srv->replyXaction = srv->popRequest(i))) {
                 if (srv->stats.timedout) {
                     debugs(84, 3, "Timedout reply received for request-ID: " << i << " , ignore");
                 } else {
